@@ -11,7 +11,8 @@ Record tables := {
   t_hdrs : list ((bool * hdrs) * hres);
   t_decode : list ((bytes * bytes) * dcres);
   t_2047 : list (bytes * r2047);
-  t_trailer : list (bytes * trres) }.
+  t_trailer : list (bytes * trres);
+  t_connect : list (bytes * bool) }.
 
 Fixpoint lookup {K V} (eq : K -> K -> bool) (k : K) (l : list (K * V)) (d : V) : V :=
   match l with
@@ -24,7 +25,8 @@ Definition callees_of (t : tables) : callees := {|
   c_hdrs := fun p h => lookup (fun a b => Bool.eqb (fst a) (fst b) && hdrs_eqb (snd a) (snd b)) (p, h) (t_hdrs t) HMiss;
   c_decode := fun ce b => lookup pair_eqb (ce, b) (t_decode t) DcMiss;
   c_2047 := fun v => lookup bytes_eqb v (t_2047 t) RMiss;
-  c_trailer := fun v => lookup bytes_eqb v (t_trailer t) TrMiss |}.
+  c_trailer := fun v => lookup bytes_eqb v (t_trailer t) TrMiss;
+  c_connect := fun line => lookup bytes_eqb line (t_connect t) false |}.
 
 Inductive callobs := CoMsgs (ms : list msg) | CoErr (e : err).
 
